@@ -85,7 +85,8 @@ def describe():
 # ---------------------------------------------------------------- generation
 
 PERTURB = ['other_goal', 'other_facts', 'repeat', 'cut', 'cases', 'introduction', 'forall_elim', 'exists_elim',
-           'revert_intro', 'new_var', 'apply_fact', 'apply_prev', 'rewrite_goal_with_prev']
+           'revert_intro', 'new_var', 'apply_fact', 'apply_prev', 'rewrite_goal_with_prev',
+           'search_step', 'search_step', 'search_step', 'search_last_gap', 'search_last_gap']
 DISTURB = ['load_other', 'load_same_other_limit', 'print_settings', 'parse_other_context', 'parse_proof_other',
            'extend', 'gc', 'fresh_theory']
 
@@ -111,6 +112,8 @@ def gen(rng, tier):
             op['keep'] = rng.chance(0.6)
         elif k == 'perturb':
             op.update({'kind': rng.pick(PERTURB), 'a': rng.randrange(10000), 'b': rng.randrange(10000), 'keep': rng.chance(0.25)})
+            if op['kind'].startswith('search'):
+                op['keep'] = rng.chance(0.7)
         elif k == 'fail_on_copy':
             op['k'] = rng.randint(1, 3)
         elif k == 'export_import':
@@ -322,6 +325,31 @@ class Runner:
             with global_setting(unicode=False, highlight=False):
                 return printer.print_term(t)
         gth = st.get_proof_item(gid).th
+        if kind in ('search_step', 'search_last_gap'):
+            # a step suggested by search for some open goal (goals get worked out of order this way)
+            gid2 = gaps[-1] if kind == 'search_last_gap' else goal_id
+            facts = []
+            if b % 3 == 0 and visible:
+                vis2 = [str(it.id) for it in items if ItemID(gid2).can_depend_on(it.id) and it.th is not None and it.rule != 'sorry']
+                if vis2:
+                    facts = [vis2[-1 - (b // 3) % min(len(vis2), 3)]]
+            try:
+                with op_alarm(60):
+                    res = st.search_method(gid2, facts)
+            except OpTimeout:
+                raise
+            except Exception:
+                self.ctr.inc('probe_search_method_raised')
+                return None
+            res = [r for r in res if all(p in r for p in self._sig(r['method_name']))]
+            if not res:
+                return None
+            r = res[(a // 7) % len(res)]
+            step = {k: v for k, v in r.items() if not k.startswith('_') and k != 'display'}
+            if step['method_name'] == 'introduction' and 'names' not in step:
+                step['names'] = self._intro_names(st, gid2)
+            self.ctr.inc('search_suggested_steps')
+            return step
         if kind == 'other_goal' and rec:
             rec['goal_id'] = goal_id
             return rec
@@ -361,6 +389,23 @@ class Runner:
             return {'method_name': kind, 'goal_id': goal_id,
                     'fact_ids': [visible[(b + i * 3) % len(visible)] for i in range(min(n, len(visible)))]}
         return None
+
+    def _sig(self, name):
+        from server import method
+        try:
+            return list(method.global_methods[name].sig)
+        except Exception:
+            return []
+
+    def _intro_names(self, st, gid):
+        t = st.get_proof_item(gid).th.prop
+        n = 0
+        while t.is_forall():
+            n += 1
+            t = t.arg.body
+        used = set(st.get_vars(gid).keys())
+        names = [nm for nm in ('q%d' % i for i in range(60)) if nm not in used][:n]
+        return ', '.join(names)
 
     # ----- one op
     def step(self, seq, op):
